@@ -54,6 +54,7 @@ fn opts<'a>(cols: &'a [usize]) -> PredOpts<'a> {
         allow_str_order: false,
         allow_huge_const: false,
         allow_is_null: false,
+        allow_float_const_for_int: false,
     }
 }
 
@@ -74,12 +75,12 @@ pub fn gen_c03(r: &mut Rng, tier: &str) -> Vec<Case> {
             let (o, depth, cls): (PredOpts, usize, &str) = match qi {
                 // bulk: non-null columns, every connective, LIKE, column-column, arithmetic
                 0..=7 => (
-                    PredOpts { allow_like: true, allow_not: true, allow_or: true, allow_colcol: qi % 2 == 0, allow_arith: qi % 3 == 0, ..opts(&nonnull) },
+                    PredOpts { allow_like: true, allow_not: true, allow_or: true, allow_colcol: qi % 2 == 0, allow_arith: qi % 3 == 0, allow_float_const_for_int: true, ..opts(&nonnull) },
                     (qi % 4) as usize,
                     "nonnull",
                 ),
                 // nullable columns under AND (and IS [NOT] NULL)
-                8..=11 => (PredOpts { allow_colcol: qi % 2 == 0, allow_is_null: true, allow_arith: qi == 9, ..opts(&nullable) }, (qi % 3) as usize, "nullable-and"),
+                8..=11 => (PredOpts { allow_colcol: qi % 2 == 0, allow_is_null: true, allow_arith: qi == 9, allow_float_const_for_int: qi >= 10, ..opts(&nullable) }, (qi % 3) as usize, "nullable-and"),
                 12 | 13 => (PredOpts { allow_is_null: true, ..opts(&all) }, 1, "is-null"),
                 // slices aimed at known gaps
                 14 => (PredOpts { allow_str_order: true, ..opts(&[S, U]) }, 0, "str-order"),
@@ -96,6 +97,39 @@ pub fn gen_c03(r: &mut Rng, tier: &str) -> Vec<Case> {
             }
             q.filter = Some(p);
             cases.push(Case { class: format!("{}:{}", cls, layout.shape()), input: case_sx(&table, &layout, &[q]) });
+        }
+        // integer column against a FLOAT literal (and float column against an integer literal): all six
+        // operators, literal equal to / half-way between present values, both operand orders
+        {
+            let n = 6 + r.below(30) as usize;
+            let lo = r.range(-3, 100);
+            let t2 = Table {
+                cols: vec![
+                    id_col(n),
+                    small_int_col(r, "a", n, lo, 5),
+                    crate::val::Col {
+                        name: "f".into(),
+                        kind: Kind::Float,
+                        omit_when_null: false,
+                        cells: (0..n).map(|_| V::f((lo + r.below(5) as i64) as f64 + if r.chance(1, 3) { 0.5 } else { 0.0 })).collect(),
+                    },
+                ],
+            };
+            let l2 = gen_layout(r, n, 3, false);
+            let mut qs = vec![];
+            for op in ["eq", "ne", "lt", "le", "gt", "ge"] {
+                let k = lo + r.below(5) as i64;
+                let (col, lit) = match r.below(4) {
+                    0 | 1 => (1, Expr::Const(V::f(k as f64))),
+                    2 => (1, Expr::Const(V::f(k as f64 + 0.5))),
+                    _ => (2, Expr::int(k)),
+                };
+                let p = if r.chance(1, 3) { Expr::cmp(op, lit, Expr::Col(col)) } else { Expr::cmp(op, Expr::Col(col), lit) };
+                let mut q = Query::select(vec![Sel::Plain(Expr::Col(ID))]);
+                q.filter = Some(p);
+                qs.push(q);
+            }
+            cases.push(Case { class: format!("int-vs-float-literal:{}", l2.shape()), input: case_sx(&t2, &l2, &qs) });
         }
     }
     cases
@@ -354,8 +388,140 @@ pub fn gen_c04(r: &mut Rng, tier: &str) -> Vec<Case> {
             }
             cases.push(Case { class: format!("{}:{}", cls, layout.shape()), input: case_sx(&table, &layout, &[q]) });
         }
+        for (cls, t2, l2, qs) in agg_shape_cases(r) {
+            cases.push(Case { class: format!("{}:{}", cls, l2.shape()), input: case_sx(&t2, &l2, &qs) });
+        }
     }
     cases
+}
+
+// ---- dedicated aggregate shapes (expected to hold on the engine; each guards a merge path) ----------
+
+fn small_int_col(r: &mut Rng, name: &str, n: usize, lo: i64, distinct: i64) -> crate::val::Col {
+    crate::val::Col {
+        name: name.into(),
+        kind: Kind::Int,
+        omit_when_null: false,
+        cells: (0..n).map(|_| V::Int(lo + r.below(distinct as u64) as i64)).collect(),
+    }
+}
+
+/// (class, table, layout, queries): small tables built for one aggregate-merge shape each.
+pub fn agg_shape_cases(r: &mut Rng) -> Vec<(&'static str, Table, Layout, Vec<Query>)> {
+    let mut out = vec![];
+    // 1. three narrow integer grouping keys, the middle one varying inside one value of the first, over
+    //    several partitions (partition + subpartition + merge_deduplicate_partitioned + merge_drop)
+    {
+        let n = 12 + r.below(40) as usize;
+        let table = Table {
+            cols: vec![
+                id_col(n),
+                small_int_col(r, "k1", n, 0, 2),
+                small_int_col(r, "k2", n, 10, 3),
+                small_int_col(r, "k3", n, 100, 2),
+                small_int_col(r, "m", n, -5, 50),
+            ],
+        };
+        let mut layout = gen_layout(r, n, 4, false);
+        if layout.batches.len() < 2 {
+            layout = Layout::single(n);
+            layout.batches = vec![n / 2, n - n / 2];
+            layout.flush = vec![true, r.chance(1, 2)];
+        }
+        let mut q = Query::select(vec![Sel::Plain(Expr::Col(1)), Sel::Plain(Expr::Col(2)), Sel::Plain(Expr::Col(3))]);
+        q.select.push(Sel::Agg("count", Expr::int(1)));
+        q.select.push(Sel::Agg(*r.pick(&["sum", "min", "max"]), Expr::Col(4)));
+        out.push(("three-small-keys", table, layout, vec![q]));
+    }
+    // 2. grouping by a column that no batch ever mentions, under a WHERE that removes rows, counting
+    //    rows: the single NULL group must report the filtered count
+    {
+        let n = 6 + r.below(40) as usize;
+        let table = Table {
+            cols: vec![
+                id_col(n),
+                small_int_col(r, "a", n, 0, 6),
+                crate::val::Col { name: "z".into(), kind: Kind::Int, omit_when_null: true, cells: vec![V::Null; n] },
+                small_int_col(r, "m", n, 0, 100),
+            ],
+        };
+        let layout = gen_layout(r, n, 3, false);
+        let mut q = Query::select(vec![Sel::Plain(Expr::Col(2)), Sel::Agg("count", Expr::int(*r.pick(&[0i64, 1])))]);
+        if r.chance(1, 2) {
+            q.select.push(Sel::Agg("sum", Expr::Col(3)));
+        }
+        q.filter = Some(Expr::cmp(*r.pick(&["lt", "ge", "ne"]), Expr::Col(1), Expr::int(r.range(1, 4))));
+        out.push(("never-present-key", table, layout, vec![q]));
+    }
+    // 3. nullable FLOAT measure: one group has values in the first partition and only NULLs in the later
+    //    one(s) (f64 null coalescing in merge_aggregate, both operand orders)
+    {
+        let n = 8 + r.below(30) as usize;
+        let cut = n / 2;
+        let keys: Vec<i64> = (0..n).map(|_| r.below(3) as i64).collect();
+        let g = keys[0];
+        let early_null = r.chance(1, 3); // also the mirrored shape: NULL-only in the EARLIER partition
+        let fm: Vec<V> = (0..n)
+            .map(|i| {
+                let in_null_part = if early_null { i < cut } else { i >= cut };
+                if keys[i] == g && in_null_part {
+                    V::Null
+                } else {
+                    V::f(r.range(-400, 400) as f64 / 4.0)
+                }
+            })
+            .collect();
+        let table = Table {
+            cols: vec![
+                id_col(n),
+                crate::val::Col { name: "k".into(), kind: Kind::Int, omit_when_null: false, cells: keys.iter().map(|x| V::Int(*x)).collect() },
+                crate::val::Col { name: "fv".into(), kind: Kind::Float, omit_when_null: false, cells: fm },
+            ],
+        };
+        let mut layout = Layout::single(n);
+        layout.batches = vec![cut, n - cut];
+        layout.flush = vec![true, r.chance(1, 2)];
+        layout.bsize = *r.pick(&[1024usize, 64]);
+        let mut q = Query::select(vec![Sel::Plain(Expr::Col(1))]);
+        for k in ["sum", "min", "max"] {
+            if r.chance(2, 3) {
+                q.select.push(Sel::Agg(k, Expr::Col(2)));
+            }
+        }
+        if q.select.len() == 1 {
+            q.select.push(Sel::Agg("max", Expr::Col(2)));
+        }
+        out.push(("float-measure-null-only-group", table, layout, vec![q]));
+    }
+    // 4. integer measure that is nullable in the first partition (one group NULL-only there) and absent
+    //    from the second: the I64 partial aggregates are cast to F64 at the merge
+    {
+        let n = 8 + r.below(30) as usize;
+        let cut = n / 2;
+        let keys: Vec<i64> = (0..n).map(|_| r.below(3) as i64).collect();
+        let g = keys[0];
+        let v: Vec<V> = (0..n)
+            .map(|i| if i >= cut || keys[i] == g { V::Null } else { V::Int(r.range(-1000, 1000)) })
+            .collect();
+        // the first partition must keep at least one value, otherwise the column is absent everywhere
+        let has_value = v[..cut].iter().any(|x| !x.is_null());
+        if has_value {
+            let table = Table {
+                cols: vec![
+                    id_col(n),
+                    crate::val::Col { name: "k".into(), kind: Kind::Int, omit_when_null: false, cells: keys.iter().map(|x| V::Int(*x)).collect() },
+                    crate::val::Col { name: "v".into(), kind: Kind::Int, omit_when_null: true, cells: v },
+                ],
+            };
+            let mut layout = Layout::single(n);
+            layout.batches = vec![cut, n - cut];
+            layout.flush = vec![true, r.chance(1, 2)];
+            let mut q = Query::select(vec![Sel::Plain(Expr::Col(1))]);
+            q.select.push(Sel::Agg(*r.pick(&["sum", "max", "min"]), Expr::Col(2)));
+            out.push(("int-measure-absent-later", table, layout, vec![q]));
+        }
+    }
+    out
 }
 
 // ---- C02 ------------------------------------------------------------------------------------------
@@ -429,6 +595,28 @@ pub fn gen_c02(r: &mut Rng, tier: &str) -> Vec<Case> {
             class: format!("{}|{}{}", l1.shape(), l2.shape(), if compaction { ":compaction" } else { "" }),
             input: pair_sx(&table, &l1, &l2, &qs),
         });
+        for (cls, t2, la, qs) in agg_shape_cases(r) {
+            let lb = Layout::single(t2.nrows());
+            cases.push(Case { class: format!("{}:{}|{}", cls, la.shape(), lb.shape()), input: pair_sx(&t2, &la, &lb, &qs) });
+        }
+        if ti % 2 == 0 {
+            // rows in the FROZEN buffer (flush in progress) + rows in the open buffer, SELECT * and a
+            // column-filtered query in that window
+            let n = 4 + r.below(20) as usize;
+            let t3 = Table {
+                cols: vec![
+                    id_col(n),
+                    small_int_col(r, "a", n, 0, 50),
+                    str_col(r, "s", n, 0, None, Nulls::None),
+                ],
+            };
+            let a = r.below(n as u64 - 2) as usize; // 0: no flushed partition yet
+            let b = a + 1 + r.below((n - a - 2) as u64 + 1) as usize; // a < b < n
+            cases.push(Case {
+                class: format!("mid-flush:{}", if a == 0 { "no-partition" } else { "partition" }),
+                input: lvharness::sx::Sx::tagged("midflush", vec![t3.sx(), lvharness::sx::Sx::int(a), lvharness::sx::Sx::int(b)]),
+            });
+        }
     }
     cases
 }
